@@ -678,14 +678,28 @@ func roundTrip(r *vh.Run, h *history) {
 		return
 	}
 	t2 := ctx2.Names["Dests"]
+	_, hasEmptyKey := h.m[""]
 	if t2 == nil {
-		r.OracleFail("roundtrip-lost", h.input(), "no Dests tree after reading")
+		class := "roundtrip-lost"
+		if hasEmptyKey && len(h.m) == 1 {
+			// validate.validateNames (xReftable.go) internalizes a tree only if Kmin != "" && Kmax != "":
+			// a tree whose only key is "" is taken for empty and removed from the catalog on READ
+			class = "roundtrip-empty-key-tree-dropped"
+		}
+		r.OracleFail(class, h.input(), "no Dests tree after reading; written tree="+before)
 		return
 	}
 	after := ser(t2)
-	// the root's limits are not written (root has no Limits entry); compare everything else
-	if stripRootLimits(before) != stripRootLimits(after) {
-		r.OracleFail("roundtrip-differs", h.input(), "before="+before+" after="+after)
+	// The root's limits are not written (a root has no Limits entry) but recomputed on reading; the tree is
+	// not empty here, so they must come back as first/last key.
+	if before != after {
+		class := "roundtrip-differs"
+		if hasEmptyKey && stripRootLimits(before) == stripRootLimits(after) {
+			// validateNameTreeDictNamesEntry takes "" as "no first key yet": the root comes back with
+			// Kmin = its second key and Value("") no longer finds the entry
+			class = "roundtrip-empty-key-root-kmin"
+		}
+		r.OracleFail(class, h.input(), "before="+before+" after="+after)
 		return
 	}
 	r.Count("roundtrip:ok")
